@@ -26,6 +26,7 @@ type symWalker struct {
 	inLoop    bool
 	atLoop    map[string]string // member path -> form when the loop is entered
 	delta     map[string]string // member path -> per-iteration increment
+	deltaPoly map[string]poly
 	final     map[string]string // member path -> form at the end of the walk (header phase)
 	appends   []map[string]ssa.Value
 	apForms   []map[string]string
@@ -38,6 +39,12 @@ type symWalker struct {
 	head      *ssa.BasicBlock // head of the record loop
 	skips     []string        // branches inside the loop that go on to the next element without appending
 	dw        decWalker       // for addrKey / copyStruct helpers
+	// a second loop, over the list the first loop appended to (encode first, add up afterwards)
+	loopDone bool                 // the first loop has been walked
+	second   bool                 // walking the second loop
+	listKey  memKey               // the member the records are appended to
+	elemRec  map[string]ssa.Value // members of the record appended per iteration of the first loop
+	nLoops   int
 }
 
 type loadedVal struct {
@@ -113,6 +120,12 @@ func (w *symWalker) resolve(v ssa.Value) ssa.Value {
 			return v
 		case *ssa.UnOp:
 			if x.Op == token.MUL {
+				if lv, ok := w.loaded[x]; ok && lv.val != nil && w.second {
+					if _, isElem := w.elemPath(x.X); isElem {
+						v = lv.val
+						continue
+					}
+				}
 				if k, ok := w.addrKey(x.X); ok {
 					if sv, ok := w.mem[k]; ok {
 						v = sv
@@ -128,12 +141,50 @@ func (w *symWalker) resolve(v ssa.Value) ssa.Value {
 	return v
 }
 
+// elemPath: addr is the address of a member of list[i], where list is the member
+// the first loop appended its records to: the member path inside the element.
+func (w *symWalker) elemPath(addr ssa.Value) (string, bool) {
+	if w.elemRec == nil {
+		return "", false
+	}
+	var elems []string
+	for depth := 0; depth < 8; depth++ {
+		switch x := addr.(type) {
+		case *ssa.FieldAddr:
+			elems = append([]string{fieldName(x)}, elems...)
+			addr = x.X
+		case *ssa.IndexAddr:
+			ld, ok := x.X.(*ssa.UnOp)
+			if !ok || ld.Op != token.MUL {
+				return "", false
+			}
+			k, ok := w.addrKey(ld.X)
+			if !ok || k != w.listKey {
+				return "", false
+			}
+			return strings.Join(elems, "."), true
+		default:
+			return "", false
+		}
+	}
+	return "", false
+}
+
 func (w *symWalker) exec(b *ssa.BasicBlock) {
 	if w.loaded == nil {
 		w.loaded = map[*ssa.UnOp]loadedVal{}
 	}
 	for _, ins := range b.Instrs {
 		if ld, ok := ins.(*ssa.UnOp); ok && ld.Op == token.MUL {
+			if path, ok := w.elemPath(ld.X); ok && w.second {
+				// a member of the current element of the list: what the first loop put there
+				if v, ok := w.elemRec[path]; ok {
+					w.loaded[ld] = loadedVal{val: v}
+				} else if isIntegerType(ld.Type()) {
+					w.loaded[ld] = loadedVal{zero: true}
+				}
+				continue
+			}
 			if k, ok := w.addrKey(ld.X); ok {
 				if s, ok := w.memSym[k]; ok {
 					w.loaded[ld] = loadedVal{sym: s}
@@ -180,6 +231,8 @@ func (w *symWalker) exec(b *ssa.BasicBlock) {
 								}
 								w.appends = append(w.appends, rec)
 								w.apForms = append(w.apForms, forms)
+								w.listKey = dk
+								w.elemRec = rec
 							}
 						}
 					}
@@ -217,11 +270,16 @@ func (w *symWalker) releaseTestMem(ifi *ssa.If) (string, bool, bool) {
 	if !ok || ld.Op != token.MUL {
 		return "", false, false
 	}
-	k, ok := w.addrKey(ld.X)
-	if !ok {
-		return "", false, false
+	var name string
+	if path, ok := w.elemPath(ld.X); ok && w.second {
+		name = lastElem(path)
+	} else {
+		k, ok := w.addrKey(ld.X)
+		if !ok {
+			return "", false, false
+		}
+		name = lastElem(k.path)
 	}
-	name := lastElem(k.path)
 	switch name {
 	case "HighReleaseIdentifier", "LowReleaseIdentifier", "ReleaseIdentifier":
 		return name, bo.Op == token.EQL, true
@@ -260,16 +318,87 @@ func (w *symWalker) walk(b, prev *ssa.BasicBlock) {
 			isHead = true
 		}
 	}
-	if isHead && w.inLoop && prev != nil && b.Dominates(prev) {
+	if isHead && w.inLoop && prev != nil && b.Dominates(prev) && b == w.head {
 		// back edge: per-iteration increments of the members that were symbolised
 		for mk, sym := range w.loopMem {
 			cur := w.fe.eval(w.mem[mk])
-			if s, still := w.memSym[mk]; still && s == sym {
+			d := poly{}
+			if s, still := w.memSym[mk]; !(still && s == sym) {
+				d = polyAdd(cur, atomPoly(sym), -1)
+			}
+			if w.second {
+				// the same number of iterations as records appended: the increments add up
+				if prevD, ok := w.deltaPoly[mk.path]; ok {
+					d = polyAdd(prevD, d, 1)
+				}
+			}
+			if w.deltaPoly == nil {
+				w.deltaPoly = map[string]poly{}
+			}
+			w.deltaPoly[mk.path] = d
+			if len(d) == 0 {
 				w.delta[mk.path] = "0"
+			} else {
+				w.delta[mk.path] = d.String()
+			}
+		}
+		return
+	}
+	if isHead && w.inLoop && w.loopDone && b != w.head {
+		// a second loop: it must run over the list the first loop appended to, once per record
+		w.nLoops++
+		if w.nLoops > 1 || w.elemRec == nil {
+			failUndecided("%s: more loops after the record loop than the rule can follow", shortFn(w.f))
+		}
+		ifi, ok := b.Instrs[len(b.Instrs)-1].(*ssa.If)
+		if !ok {
+			failUndecided("second loop of %s does not end in a condition", shortFn(w.f))
+		}
+		over := false
+		if bo, ok := ifi.Cond.(*ssa.BinOp); ok && bo.Op == token.LSS {
+			if call, ok := bo.Y.(*ssa.Call); ok {
+				if bi, ok := call.Call.Value.(*ssa.Builtin); ok && bi.Name() == "len" && len(call.Call.Args) == 1 {
+					if ld, ok := call.Call.Args[0].(*ssa.UnOp); ok && ld.Op == token.MUL {
+						if k, ok := w.addrKey(ld.X); ok && k == w.listKey {
+							over = true
+						}
+					}
+				}
+			}
+		}
+		if !over {
+			failUndecided("%s: the loop after the record loop does not run over the list of appended records", posOf(w.c, ifi))
+		}
+		w.second = true
+		w.head = b
+		// members stored inside this loop become symbols of their own
+		w.loopMem = map[memKey]string{}
+		for _, bb := range w.f.Blocks {
+			if !(b.Dominates(bb) && reachableFrom(bb, nil, nil, nil)[b]) {
 				continue
 			}
-			w.delta[mk.path] = polyAdd(cur, atomPoly(sym), -1).String()
+			for _, ins := range bb.Instrs {
+				if st, ok := ins.(*ssa.Store); ok {
+					if k, ok := w.addrKey(st.Addr); ok && strings.HasPrefix(k.path, "Hdr") && !isStructValue(st.Val.Type()) {
+						w.loopMem[k] = "mem1:" + k.path
+					}
+				}
+			}
 		}
+		for k, sym := range w.loopMem {
+			w.memSym[k] = sym
+		}
+		for _, ins := range b.Instrs {
+			ph, ok := ins.(*ssa.Phi)
+			if !ok {
+				break
+			}
+			w.loopSym[ph] = "loop2:" + ph.Comment
+			delete(w.phi, ph)
+		}
+		w.newFE()
+		w.exec(b)
+		w.walk(b.Succs[0], b)
 		return
 	}
 	if isHead && !w.inLoop {
@@ -419,7 +548,25 @@ func returnsSoon(b *ssa.BasicBlock) bool {
 	return false
 }
 
-func (w *symWalker) afterLoop(b *ssa.BasicBlock) {}
+// afterLoop: what follows the record loop.  Only a second loop over the list of
+// appended records matters (lengths added up after all records are encoded);
+// the walk ends at the first return.
+func (w *symWalker) afterLoop(b *ssa.BasicBlock) {
+	w.loopDone = true
+	// is there a loop at all behind the exit?
+	later := false
+	for bb := range reachableFrom(b, nil, nil, nil) {
+		for _, p := range bb.Preds {
+			if bb.Dominates(p) && p != bb && bb != w.head {
+				later = true
+			}
+		}
+	}
+	if !later {
+		return
+	}
+	w.walk(b, w.head)
+}
 
 func checkC03(c *Ctx, r *Report) {
 	r.Explanation = "The function that assembles and writes the subscriber's CDR file (dumpCdrFile) is analysed on go/ssa against the layout extracted from the cdrFile encoders (E5d): (R1) no narrowing conversion into an 8/16-bit length field can truncate - the operand range is proven inside the target range by a dominating guard (so a record over 65535 octets is never written); (R2) for every combination of the release-identifier tests the header length it computes equals the size of the encoded header, the file length at the start equals the header length and grows per record by exactly the encoded record header size plus the payload length, the count field equals the number of records and exactly one record is appended per input record, and each record's length field equals the length of the very byte slice stored as its payload; (R3) the error of the BER marshaller is tested on its own result and no payload is used on the error edge; (R4) the payload is the marshal result itself."
